@@ -6,7 +6,9 @@ claim("C01", "DESIGN.md 5 C01",
       "and the property clauses as postconditions over ghost state: number == source - withheld (Map and, composed, Write: the emitted packet's seqno field), successor-of-last-number (unique/ordered/gap-free), "
       "a late copy of a packet of the newest interval keeps its number, a packet just withheld lies outside the newest interval.",
       "Assumed: sync.Mutex lock-ghost contract; sequential semantics (Drop-then-Map is not atomic under concurrent Writes); pion/webrtc, sync.Pool and estimator contracts listed in the evidence. "
-      "Not decided: the ring-order invariant over older intervals (aged intervals alias after >= 2^15 packets without a new interval: clauses about late copies / withheld packets are stated for the newest interval under explicit count bounds).")
+      "Coverage of an interval is stated in plain modular arithmetic (s - first < count), not with the code's own mod-2^16 comparisons; the representation invariant includes short(m): every interval covers at most 0x4000 packets "
+      "(intervals grew without bound and late packets then took another packet's number: repaired). "
+      "Not decided: first-hit consistency over OLDER intervals of the ring (clauses about late copies / withheld packets are stated for the newest interval); 0x4000 or more consecutive withheld packets.")
 
 claim("C02", "DESIGN.md 5 C02",
       "codecs.RewritePacket is proved against a byte-exact contract for ALL byte strings and codec names (marker only ever set, seqno bytes, every other byte unchanged except the 7/15-bit picture id, "
@@ -58,7 +60,8 @@ claim("C10", "DESIGN.md 5 C10",
       "on success the client is registered under its non-empty id, an existing registration under that id refuses the join; on every refusal the client object is left exactly as it was (Init not called: ghost count). "
       "autoLockKick never lifts or replaces an existing lock and locks only autolock groups; it is proved to be called with g.mu held at every call site (DelClient's call was outside the critical section: repaired). "
       "AddClient/DelClient/Add frames are explicit (what they may modify) and checked write by write.",
-      "Assumed: group.Add (trusted contract, not yet verified), Description.GetPermission (effect-free; verified under C08 when claimed), group.Client callbacks do not touch the group's guarded state, time.Time comparisons are pure. "
+      "group.add/Add are verified too: names the validator refuses are rejected before any lookup, and on every successful lookup the autolock/autokick rule has been evaluated for the group, under its mutex, after the description was settled (ghost counter; a new autolock group starts locked). "
+      "Assumed: readDescription, descriptionMatch/Unchanged (trusted), group.Client callbacks do not touch the group's guarded state, time.Time comparisons are pure; Description.GetPermission is verified under C08/C09. "
       "Not decided: that a kicked client eventually leaves (liveness); description reload races with file edits; 'announced to no one' on refusal is read from the code structure (all notifications follow the insertion), not a separate obligation.")
 
 claim("C11", "DESIGN.md 5 C11",
@@ -73,6 +76,8 @@ claim("C13", "DESIGN.md 5 C13",
       "Lock-ghost verification of the group layer: for Group.{description, locked, clients, history, timestamp, data}, the table groups.groups and Channel.queue every load and store in a function under contract carries the obligation 'mutex held' "
       "(functions documented 'called locked' require it; public ones are proved to take and release the lock; double Lock and Unlock of an unheld mutex are obligations too). "
       "unbounded.Channel Put/Get: Put appends exactly v at the end and changes nothing else, Get returns the whole queue and leaves it empty (exactly once, in order, linearised).",
+      "Two lock-ORDER rules are call-site obligations: group.kickall issues every Kick with the group's mutex released and never from under Group.Range (Shutdown deadlocked with a recorder or WHIP publisher in a group: repaired); "
+      "rtpconn.WhipClient.Close never calls into the group with the client's own mutex held (the group calls Permissions() with its mutex held: deadlock, repaired). group.GetDescription reads the description under the group's mutex (data race: repaired). "
       "PARTIAL. Under contract: Name, Locked, SetLocked, Data, UpdateData, Description, ClientCount, mayExpire, Get, Delete, deleteUnlocked, Range (both), AddClient, DelClient, autoLockKick, GetClients, getClientsUnlocked, GetClient, getClientUnlocked, UserExists, chat history functions, Channel.Put/Get. "
       "Not yet under contract (accessors of guarded state outside the claim): add, Shutdown, WallOps, Status, GetPublic, Update, WhipClient, diskwriter.Client, stats. "
       "Not decided: lock-ORDER deadlock freedom (level ghosts not built: WhipClient.Close vs AddClient and kickall re-entering the group are NOT checked), lost wakeups, starvation, leaks. Callbacks passed to Range are assumed not to touch the lock.")
